@@ -41,7 +41,7 @@ BINARY = b"\x00\xff\xfe\x01 binary {{a}} not rendered \x80"
 def scratch():
     if _S.get("pid") != os.getpid():
         _S.clear()
-        _S["dir"] = tempfile.mkdtemp(prefix="verif-c13-", dir="/dev/shm" if os.path.isdir("/dev/shm") else None)
+        _S["dir"] = tempfile.mkdtemp(prefix="verif-c13-")
         _S["pid"] = os.getpid()
         import atexit
 
